@@ -22,4 +22,6 @@ package dcs
 //@   requires c20c [safety]: forall k string :: has(clusterState, k) ==> clusterState[k] != nil && regd(cluster, k)
 //@   ensures C20.adapter [C20]: result != nil && adapterOK(result) && result.clusterState == clusterState && result.cluster == cluster && result.master == master
 //@ func (*app/dcs.OptimizationClusterAdapter).GetState
+//@   ensures C19.getstate_copy [C19]: has(ocs.clusterState, hostname) ==> result.IsMaster == ocs.clusterState[hostname].IsMaster && result.SlaveState == ocs.clusterState[hostname].SlaveState && result.ReplicationSettings == ocs.clusterState[hostname].ReplicationSettings
+//@   ensures C19.getstate_unknown [C19]: !has(ocs.clusterState, hostname) ==> result.SlaveState == nil && !result.IsMaster
 //@   ensures C20.unknown_is_zero [C20]: !has(ocs.clusterState, hostname) ==> result.SlaveState == nil && result.ReplicationSettings == nil && !result.IsMaster
